@@ -112,3 +112,12 @@ impl TimeExt for Time {
         self.checked_sub(dur).unwrap_or_else(Time::unix_epoch)
     }
 }
+
+/// Verification hooks: compiled only with `--cfg eigerco_lumina_verif` (see /verif).
+#[cfg(eigerco_lumina_verif)]
+#[doc(hidden)]
+#[allow(unused_imports, missing_docs, dead_code, unreachable_pub)]
+pub mod verif {
+    use super::*;
+    pub use super::counter::verif as counter;
+}
